@@ -40,7 +40,9 @@ PROPS["C11"] = dict(
         J("c11_rt_enterprise", bound="kind enterprise; net<16; both credential kinds; all hash bytes", encodes=["Address::from_bytes", "EnterpriseAddress::from_address"], unwind_fn=HL, mem_gb=10, timeout_s=900),
         J("c11_enc_reward", bound="kind reward; net<16; both credential kinds; all hash bytes", encodes=["Address::to_bytes", "kind", "network_id", "payment_cred"], unwind_fn=HL, mem_gb=10),
         J("c11_rt_reward", bound="kind reward; net<16; both credential kinds; all hash bytes", encodes=["Address::from_bytes", "RewardAddress::from_address"], unwind_fn=HL, mem_gb=10, timeout_s=900),
-        J("c11_pointer_roundtrip", bound="pointer triple: all u64^3", encodes=["variable_nat_encode", "variable_nat_decode", "Address::decode_pointer", "PointerAddress"], unwind_fn=HL, mem_gb=20, timeout_s=1500),
+        J("c11_pointer_rt_slot", bound="slot natural: all u64, the other two fixed", encodes=["variable_nat_encode", "variable_nat_decode", "Address::decode_pointer", "PointerAddress"], unwind_fn=HL, mem_gb=16, timeout_s=1500),
+        J("c11_pointer_rt_tx", bound="tx natural: all u64, the other two fixed", encodes=["variable_nat_encode", "variable_nat_decode", "Address::decode_pointer", "PointerAddress"], unwind_fn=HL, mem_gb=16, timeout_s=1500),
+        J("c11_pointer_rt_cert", bound="cert natural: all u64, the other two fixed", encodes=["variable_nat_encode", "variable_nat_decode", "Address::decode_pointer", "PointerAddress"], unwind_fn=HL, mem_gb=16, timeout_s=1500),
         J("c11_strict_parse_short", bound="every byte string of length 0..34, header != Byron", encodes=["Address::from_bytes_internal_impl(strict)"], unwind_fn=HL, timeout_s=1800, mem_gb=16),
         J("c11_strict_parse_base", bound="length 55..60, header nibble 0..3", encodes=["Address::from_bytes_internal_impl(strict)"], unwind_fn=HL, timeout_s=1800, mem_gb=16),
         J("c11_embedded_verbatim_short", bound="carried byte string of length 0..34", encodes=["Address::deserialize", "from_bytes_impl_unsafe"], unwind_fn=HL, timeout_s=1800, mem_gb=16),
